@@ -45,7 +45,6 @@ class SpecDataset(metaclass=Plugin):
 
     def __init__(self, xarray_dset):
         self.dset = xarray_dset
-        self._wrapper()
         self.supported_dims = [
             attrs.TIMENAME,
             attrs.SITENAME,
@@ -56,7 +55,13 @@ class SpecDataset(metaclass=Plugin):
         ]
 
     def __getattr__(self, attr):
+        if attr in self._wrapper():
+            # Public SpecArray attribute, looked up on the current spectra variable
+            return getattr(self.dset[attrs.SPECNAME].spec, attr)
         return getattr(self.dset, attr)
+
+    def __dir__(self):
+        return sorted(set(super().__dir__()) | self._wrapper())
 
     def __repr__(self):
         return re.sub(r"<.+>", f"<{self.__class__.__name__}>", str(self.dset))
@@ -69,10 +74,7 @@ class SpecDataset(metaclass=Plugin):
             self.spec.hs() becomes equivalent to self.efth.spec.hs()
 
         """
-        for method_name in dir(self.dset[attrs.SPECNAME].spec):
-            if not method_name.startswith("_"):
-                method = getattr(self.dset[attrs.SPECNAME].spec, method_name)
-                setattr(self, method_name, method)
+        return {name for name in dir(SpecArray) if not name.startswith("_")}
 
     def _check_and_stack_dims(self):
         """Ensure dimensions are suitable for dumping in some ascii formats.
